@@ -26,10 +26,158 @@ def _floaty(dtype):
         return False
 
 
+import operator
+
+
+def _decide_mask(m):
+    """concrete bool array of a symbolic mask (forks per undecided element)."""
+    b = np.empty(m.shape, dtype=bool)
+    for idx in np.ndindex(*m.shape):
+        b[idx] = bool(m[idx])
+    return b
+
+
+def _has_sbool(a):
+    for e in a.flat:
+        if isinstance(e, SBool):
+            return True
+    return False
+
+
+def _is_symmask(k):
+    return isinstance(k, np.ndarray) and k.dtype == object and k.size > 0 and all(isinstance(e, (SBool, bool, np.bool_)) for e in k.flat)
+
+
+class SymArray(np.ndarray):
+    """ndarray subclass carried by every object array the engine creates.
+    It only changes what numpy cannot do symbolically: rich comparisons return
+    arrays of SBool instead of forcing truth values, masks made of SBool can
+    be used for indexing / masked assignment, any()/all() build one formula."""
+    __array_priority__ = 50.0
+
+    def _cmp(self, other, op):
+        if self.dtype != object and not (isinstance(other, np.ndarray) and other.dtype == object) and not isinstance(other, (SReal, SBool)):
+            return getattr(np.ndarray, '__%s__' % op)(np.asarray(self), other)
+        f = getattr(operator, op)
+        r = np.frompyfunc(f, 2, 1)(np.asarray(self), np.asarray(other) if isinstance(other, np.ndarray) else other)
+        if isinstance(r, np.ndarray):
+            if not _has_sbool(r):
+                return np.asarray(r).astype(bool)
+            return r.view(SymArray)
+        return r
+
+    def __lt__(self, o): return self._cmp(o, 'lt')
+    def __le__(self, o): return self._cmp(o, 'le')
+    def __gt__(self, o): return self._cmp(o, 'gt')
+    def __ge__(self, o): return self._cmp(o, 'ge')
+    def __eq__(self, o): return self._cmp(o, 'eq')
+    def __ne__(self, o): return self._cmp(o, 'ne')
+    __hash__ = None
+
+    def __array_wrap__(self, obj, context=None, return_scalar=False):
+        # reductions of ndarray subclasses come back as 0-d arrays; numpy
+        # proper returns scalars there, and so must we
+        if isinstance(obj, np.ndarray) and obj.ndim == 0:
+            return obj[()]
+        if isinstance(obj, np.ndarray) and not isinstance(obj, SymArray):
+            obj = obj.view(SymArray)
+        return obj
+
+    def __invert__(self):
+        if self.dtype == object:
+            def inv(e):
+                if isinstance(e, (bool, np.bool_)):
+                    return not e
+                return ~e
+            return sa(np.frompyfunc(inv, 1, 1)(np.asarray(self)))
+        return np.ndarray.__invert__(self)
+
+    def __bool__(self):
+        if self.dtype == object and self.size == 1:
+            return bool(self.reshape(-1)[0])
+        return np.ndarray.__bool__(np.asarray(self))
+
+    def _fix_key(self, key):
+        if _is_symmask(key):
+            return _decide_mask(key)
+        if isinstance(key, tuple) and any(_is_symmask(k) for k in key):
+            return tuple(_decide_mask(k) if _is_symmask(k) else k for k in key)
+        return key
+
+    def __getitem__(self, key):
+        return np.ndarray.__getitem__(self, self._fix_key(key))
+
+    def __setitem__(self, key, value):
+        if _is_symmask(key) and key.shape == self.shape and self.dtype == object and _has_sbool(key):
+            # masked assignment without forking: elementwise if-then-else
+            v = np.broadcast_to(np.asarray(value, dtype=object), self.shape) if np.ndim(value) == 0 else None
+            if v is not None:
+                flat = np.asarray(self).reshape(-1) if self.flags.c_contiguous else None
+                if flat is not None:
+                    kf, vf = key.reshape(-1), v.reshape(-1)
+                    for i in range(flat.size):
+                        c = kf[i]
+                        if isinstance(c, SBool):
+                            flat[i] = mk(z3.If(c.b, lift(vf[i]), lift(flat[i])))
+                        elif c:
+                            flat[i] = vf[i]
+                    return
+        return np.ndarray.__setitem__(self, self._fix_key(key), value)
+
+    def any(self, axis=None, out=None, keepdims=False, **k):
+        if self.dtype == object:
+            return PROXY.any(np.asarray(self), axis=axis)
+        return np.ndarray.any(np.asarray(self), axis=axis, keepdims=keepdims)
+
+    def all(self, axis=None, out=None, keepdims=False, **k):
+        if self.dtype == object:
+            return PROXY.all(np.asarray(self), axis=axis)
+        return np.ndarray.all(np.asarray(self), axis=axis, keepdims=keepdims)
+
+    def astype(self, dtype, *a, **k):
+        if self.dtype == object and dtype in (bool, np.bool_) and _has_sbool(self):
+            return _decide_mask(np.asarray(self))
+        r = np.ndarray.astype(self, dtype, *a, **k)
+        return r
+
+    def max(self, axis=None, out=None, keepdims=False, **k):
+        if self.dtype == object and is_sym(self):
+            return PROXY.max(np.asarray(self), axis=axis, keepdims=keepdims)
+        return np.ndarray.max(self, axis=axis, keepdims=keepdims)
+
+    def min(self, axis=None, out=None, keepdims=False, **k):
+        if self.dtype == object and is_sym(self):
+            return PROXY.min(np.asarray(self), axis=axis, keepdims=keepdims)
+        return np.ndarray.min(self, axis=axis, keepdims=keepdims)
+
+    def mean(self, axis=None, **k):
+        if self.dtype == object:
+            return PROXY.mean(self, axis=axis)
+        return np.ndarray.mean(self, axis=axis, **k)
+
+    def __reduce__(self):
+        return np.asarray(self).__reduce__()
+
+
+def sa(x):
+    """view object arrays as SymArray (recursively through tuples/lists)."""
+    if isinstance(x, np.ndarray):
+        if x.dtype == object and not isinstance(x, SymArray):
+            return x.view(SymArray)
+        return x
+    if isinstance(x, tuple):
+        return tuple(sa(e) for e in x)
+    return x
+
+
 def objarr(a):
     """object array with the same shape/content."""
     if isinstance(a, np.ndarray) and a.dtype == object:
-        return a
+        return sa(a)
+    return sa(_objarr(a))
+
+
+def _objarr(a):
     a = np.asarray(a)
     o = np.empty(a.shape, dtype=object)
     if a.ndim == 0:
@@ -61,7 +209,7 @@ def emap(f, *xs):
     if all(not isinstance(x, (np.ndarray, list, tuple)) for x in xs):
         return f(*xs)
     uf = np.frompyfunc(f, len(xs), 1)
-    return uf(*[x if not isinstance(x, (list, tuple)) else objarr(x) for x in xs])
+    return sa(uf(*[(np.asarray(x) if isinstance(x, np.ndarray) else x) if not isinstance(x, (list, tuple)) else _objarr(x) for x in xs]))
 
 
 def _unary(npf, symf):
@@ -77,11 +225,18 @@ def _unary(npf, symf):
 
 def _sym_or_num(symf, numf):
     def h(x):
+        if isinstance(x, np.ndarray) and x.ndim == 0:
+            x = x[()]
         if isinstance(x, SReal):
             return symf(x)
         if isinstance(x, SBool):
             return symf(x.as_real())
-        return _py(numf(float(x)))
+        try:
+            return _py(numf(float(x)))
+        except (ValueError, ZeroDivisionError):
+            # numpy semantics under errstate(ignore): log(0) = -inf, sqrt(-1) = nan
+            with np.errstate(all='ignore'):
+                return float(getattr(np, {'acos': 'arccos'}.get(numf.__name__, numf.__name__))(float(x)))
     return h
 
 
@@ -204,11 +359,27 @@ def _f(x):
     return x
 
 
+_WRAP_CACHE = {}
+
+
+def _wrapped(f):
+    w = _WRAP_CACHE.get(f)
+    if w is None:
+        def w(*a, **k):
+            return sa(f(*a, **k))
+        w.__name__ = getattr(f, '__name__', 'np_fn')
+        _WRAP_CACHE[f] = w
+    return w
+
+
 class NpProxy(object):
     linalg = _Linalg()
 
     def __getattr__(self, name):
-        return getattr(np, name)
+        v = getattr(np, name)
+        if callable(v) and not isinstance(v, type):
+            return _wrapped(v)
+        return v
 
     # ----------------------------------------------------------- creation
     @staticmethod
@@ -508,8 +679,48 @@ class NpProxy(object):
         return stubs.cov(objarr(m), rowvar=rowvar, bias=bias)
 
 
+def cdist(x, c, *a, **k):
+    """scipy.spatial.distance.cdist, euclidean: sqrt of the squared distance."""
+    from scipy.spatial.distance import cdist as real
+    if not is_sym(x) and not is_sym(c):
+        r = real(_f(np.asarray(x)), _f(np.asarray(c)), *a, **k)
+        return objarr(r) if ENG.active else r
+    if a or k:
+        raise EngineGap('cdist with a non-default metric')
+    x, c = objarr(x), objarr(c)
+    out = np.empty((x.shape[0], c.shape[0]), dtype=object)
+    ENG.used_stubs.add('scipy cdist := sqrt(sum (x-c)^2)')
+    for i in range(x.shape[0]):
+        for j in range(c.shape[0]):
+            d = x[i] - c[j]
+            out[i, j] = _sqrt(np.sum(d * d))
+    return out
+
+
+def _wrap_methods(cls):
+    for name, v in list(vars(cls).items()):
+        if name.startswith('__') or name == '_wrap_create':
+            continue
+        if isinstance(v, staticmethod):
+            f = v.__func__
+            setattr(cls, name, staticmethod((lambda _f: lambda *a, **k: sa(_f(*a, **k)))(f)))
+        elif isinstance(v, types.FunctionType):
+            setattr(cls, name, (lambda _f: lambda self, *a, **k: sa(_f(self, *a, **k)))(v))
+
+
+def _np_nonzero(self, a):
+    if _is_symmask(a) and _has_sbool(a):
+        return np.nonzero(_decide_mask(np.asarray(a)))
+    return np.nonzero(a)
+
+
+NpProxy.nonzero = _np_nonzero
+NpProxy.flatnonzero = lambda self, a: np.flatnonzero(_decide_mask(np.asarray(a)) if (_is_symmask(a) and _has_sbool(a)) else a)
+_wrap_methods(NpProxy)
+_wrap_methods(_Linalg)
 PROXY = NpProxy()
 _installed = {}
+from scipy.spatial.distance import cdist as _real_cdist
 
 
 def install(extra_modules=()):
@@ -520,6 +731,8 @@ def install(extra_modules=()):
         if getattr(mod, 'np', None) is np:
             _installed[name] = mod
             mod.np = PROXY
+        if getattr(mod, 'cdist', None) is _real_cdist:
+            mod.cdist = cdist
     return sorted(_installed)
 
 
